@@ -103,6 +103,25 @@ func (r *Rec) Wanted(c any) bool {
 type Unit struct {
 	Name string
 	Run  func(r *Rec)
+	Tier string // the tier this unit runs at when it differs from the run's tier
+}
+
+// unitsFor returns the units of a run. The thorough tier first repeats the
+// quick tier's units (named quick/<unit>), so that a budget spent on the deep
+// units never leaves a family of programs with less coverage than the quick
+// tier gives it.
+func unitsFor(c *Check, tier string) []Unit {
+	us := c.Units(tier)
+	if tier != "thorough" {
+		return us
+	}
+	var all []Unit
+	for _, u := range c.Units("quick") {
+		u.Name = "quick/" + u.Name
+		u.Tier = "quick"
+		all = append(all, u)
+	}
+	return append(all, us...)
 }
 
 // Check is the machinery deciding one property.
@@ -165,15 +184,26 @@ func WorkerMain(id, tier string, deadline time.Time) {
 		fmt.Fprintln(os.Stderr, "unknown check", id)
 		os.Exit(2)
 	}
-	units := c.Units(tier)
+	units := unitsFor(c, tier)
 	in := bufio.NewScanner(os.Stdin)
 	out := bufio.NewWriter(os.Stdout)
 	for in.Scan() {
-		idx, err := strconv.Atoi(strings.TrimSpace(in.Text()))
+		// "<unit index> [<deadline of this unit, ns>]"
+		f := strings.Fields(in.Text())
+		if len(f) == 0 {
+			continue
+		}
+		idx, err := strconv.Atoi(f[0])
 		if err != nil || idx < 0 || idx >= len(units) {
 			continue
 		}
-		rec := RunUnit(units[idx], tier, deadline, nil)
+		unitDeadline := deadline
+		if len(f) > 1 {
+			if ns, err := strconv.ParseInt(f[1], 10, 64); err == nil && time.Unix(0, ns).Before(deadline) {
+				unitDeadline = time.Unix(0, ns)
+			}
+		}
+		rec := RunUnit(units[idx], tier, unitDeadline, nil)
 		data, _ := json.Marshal(rec)
 		out.WriteString("REC ")
 		out.Write(data)
@@ -184,6 +214,9 @@ func WorkerMain(id, tier string, deadline time.Time) {
 
 // RunUnit runs one unit in this process.
 func RunUnit(u Unit, tier string, deadline time.Time, replay json.RawMessage) *Rec {
+	if u.Tier != "" {
+		tier = u.Tier
+	}
 	rec := newRec(u.Name, tier, deadline)
 	rec.ReplayCase = replay
 	t0 := time.Now()
@@ -212,7 +245,7 @@ func Main(root, self, id, tier string, workers int, seed int64) int {
 	t0 := time.Now()
 	budget := c.Budget(tier)
 	deadline := t0.Add(budget)
-	units := c.Units(tier)
+	units := unitsFor(c, tier)
 	if workers > len(units) {
 		workers = len(units)
 	}
@@ -268,8 +301,22 @@ func Main(root, self, id, tier string, workers int, seed int64) int {
 					}
 					idx := order[next]
 					next++
+					// thorough tier: a unit may use its fair share of what is left of the budget
+					// (remaining time x workers / remaining units), so that the deep units at the
+					// head of the list cannot starve the rest; shares grow as quick units finish early
+					unitDeadline := deadline
+					if tier == "thorough" {
+						left := len(order) - next + 1
+						share := time.Duration(float64(time.Until(deadline)) * float64(workers) / float64(left))
+						if share < 20*time.Second {
+							share = 20 * time.Second
+						}
+						if d := time.Now().Add(share); d.Before(deadline) {
+							unitDeadline = d
+						}
+					}
 					mu.Unlock()
-					fmt.Fprintf(stdin, "%d\n", idx)
+					fmt.Fprintf(stdin, "%d %d\n", idx, unitDeadline.UnixNano())
 					rec, err := readRec(rd)
 					if err != nil {
 						// the worker died while running unit idx
@@ -542,7 +589,7 @@ func ReplayMain(path string) int {
 		return 2
 	}
 	var unit *Unit
-	for _, u := range c.Units(rf.Tier) {
+	for _, u := range unitsFor(c, rf.Tier) {
 		if u.Name == rf.Unit {
 			u := u
 			unit = &u
